@@ -400,6 +400,26 @@ fn value(o: &mut Obj, v: &ValueRecord, format: u16) {
     if format & 8 != 0 {
         o.i16(v.y_advance);
     }
+    // device offsets are relative to the table the value record sits in
+    for k in 0..4 {
+        if format & (0x10 << k) != 0 {
+            o.off16_opt(v.devices[k].as_ref().map(device_obj));
+        }
+    }
+}
+
+fn device_obj(d: &DeviceSpec) -> Obj {
+    let mut o = Obj::new();
+    o.u16(d.start_size).u16(d.end_size).u16(3);
+    let n = (d.end_size.saturating_sub(d.start_size) as usize) + 1;
+    let mut bytes: Vec<u8> = (0..n).map(|_| d.delta as u8).collect();
+    if bytes.len() % 2 == 1 {
+        bytes.push(0);
+    }
+    for b in bytes {
+        o.u8(b);
+    }
+    o
 }
 
 fn anchor_obj(a: &Anchor) -> Obj {
